@@ -305,6 +305,14 @@ struct PCatch
   }
 };
 
+// the same target as a functor class whose call operator is declared NOEXCEPT (it never throws): used as a getter of
+// compose().  noexcept is part of the function type, so this is a class of its own; the other targets stay as they are.
+template<int ID, typename Ret, typename... A>
+struct NxRec
+{
+  Ret operator()(A... a) const noexcept { return leaf<ID, 0, Ret, A...>(std::forward<A>(a)...); }
+};
+
 // a target accepting any number of int/long/double/MStr arguments BY VALUE (variadic template operator())
 template<int ID, int THROWS, typename Ret>
 struct VRec
